@@ -234,6 +234,9 @@ def mpint_sign(ctx, report):
     report.count('C07.R5')
     if g is None or '>= 128' not in ast.unparse(g.node):
         report.add('C07.R5', (g.construct if g else 'ParserBinary.parse_ssh_mpint') + '@sign', 'parser does not take the sign from the top bit of the first byte')
+    # the whole composer / parser pipeline tabulated against RFC 4251 section 5 for the non-negative key parameters
+    from .c11 import mpint_pipeline
+    mpint_pipeline(ctx, report, rule='C07.R5', signs=(1,))
 
 
 # ---- R6 ---------------------------------------------------------------------------------------------------------
